@@ -2457,6 +2457,19 @@ def check_positive_examples(ctx):
     wantc = {'conv_bare': 'bad', 'conv_converted': 'ok', 'conv_rethrown': 'bad'}
     if cv != wantc:
         ctx.broken('R-C16-16 self-check: verdicts on drivers/c16_positive.cpp are %s, expected %s' % (cv, wantc))
+    sv = {}
+    for f, n, v, why in stack_allocation_sites(tu, [f for f in tu.functions.values() if f['q'].startswith('rkverif_c16::stack_')]):
+        sv[f['q'].split('::')[-1]] = v
+    wants = {'stack_token': 'bad', 'stack_fixed': 'const'}
+    if sv != wants:
+        ctx.broken('R-C16-18 self-check: verdicts on drivers/c16_positive.cpp are %s, expected %s' % (sv, wants))
+    bv = {}
+    stores = [f for f in tu.functions.values() if f['q'].startswith('rkverif_c16::store_')]
+    for f, n, v, why in buffer_store_sites(tu, stores, {'id': None}):
+        bv.setdefault(f['q'].split('::')[-1], set()).add(v)
+    wantb = {'store_restored_elsewhere': {'bad'}, 'store_restored_in_place': {'ok'}, 'store_other': {'undecided'}}
+    if bv != wantb:
+        ctx.broken('R-C16-19 self-check: verdicts on drivers/c16_positive.cpp are %s, expected %s' % (bv, wantb))
     if tv != want:
         ctx.broken('R-C16-10 self-check: verdicts on drivers/c16_positive.cpp are %s, expected %s' % (tv, want))
 
@@ -4022,6 +4035,265 @@ def check_reads_file(ctx, tu):
         ctx.ok(R, 'xml::readXML', 'every return is dominated by a read of the file (%s)' % ', '.join(sorted(fns[i]['q'].split('::')[-1] for i in direct)),
                tu.fn_loc(f))
 
+# ============================================================================================
+#  R-C16-18: no stack allocation sized by the document;  R-C16-19: the parser does not leave the file buffer modified
+# ============================================================================================
+STACK_ALLOCATORS = ('alloca', '__builtin_alloca', '__builtin_alloca_with_align', '_alloca')
+
+
+def _parser_fns(tu):
+    fs = tu.fns(q='rkcommon::xml::readXML')
+    if len(fs) != 1:
+        return None, []
+    return fs[0], [f for f in reachable_fns(tu, fs[0]) if tu.fn_file(f).startswith('rkcommon/')]
+
+
+def stack_allocation_sites(tu, fns):
+    """(function, node, 'const'|'bad'|'guarded', text) for every alloca call / variable-length array"""
+    le = LinExpr(tu)
+    out = []
+    for f in fns:
+        body = tu.body(f)
+        if body is None:
+            continue
+        for n in tu.walk(body):
+            size = None
+            if n.get('kind') == 'CallExpr':
+                qn = tu.sd(n).get('q', '').split('::')[-1]
+                if not qn:
+                    c = tu.strip(tu.kids(n)[0]) if tu.kids(n) else None
+                    qn = (c or {}).get('referencedDecl', {}).get('name', '') if c else ''
+                if qn not in STACK_ALLOCATORS:
+                    continue
+                args = tu.kids(n)[1:]
+                size = args[0] if args else None
+            elif n.get('kind') == 'VarDecl' and re.search(r'\[[^\]\d][^\]]*\]', n.get('type', {}).get('qualType', '')):
+                size = None
+            else:
+                continue
+            l = le.lin(size) if size is not None else None
+            if l is not None and not l[0]:
+                out.append((f, n, 'const', 'constant size %d' % l[1]))
+                continue
+            # a guard `size-term < constant` on an enclosing if makes it a bounded allocation: not decided here
+            guarded = False
+            x = tu.par(n)
+            while x is not None and x.get('id') != body.get('id'):
+                if x.get('kind') in ('IfStmt', 'ConditionalOperator'):
+                    guarded = True
+                x = tu.par(x)
+            out.append((f, n, 'guarded' if guarded else 'bad', tu.show(size) if size is not None else 'variable-length array'))
+    return out
+
+
+def check_stack_allocation(ctx, tu):
+    R = 'R-C16-18'
+    ctx.describe(R, 'no function reachable from readXML allocates stack memory (alloca, variable-length array) of a size that is not a constant: '
+                    'token and content lengths come from the document, a single long token would overflow the stack (the reader never crashes)')
+    start, fns = _parser_fns(tu)
+    if start is None:
+        ctx.broken('%s: readXML not found' % R)
+        return
+    sites = stack_allocation_sites(tu, fns)
+    for f, n, v, why in sites:
+        inst = '%s %s' % (f['q'].replace('rkcommon::', ''), f['fty'])
+        if v == 'bad':
+            ctx.violation(R, inst, 'stack allocation of `%s` bytes: the size is taken from the document (a token, content or file length) and is '
+                          'not bounded, so one long token (a few MiB of inlined data, less on a thread with a small stack) overflows the stack and '
+                          'the process dies instead of readXML returning or throwing' % why, tu.loc(n),
+                          key='%s|%s|%s|unbounded-stack-allocation' % (R, tu.fn_file(f), f['q'].replace('rkcommon::', '')))
+        elif v == 'guarded':
+            ctx.undecided(R, inst, 'stack allocation of `%s` bytes under a condition: the bound the condition gives is not evaluated here' % why, tu.loc(n))
+        else:
+            ctx.ok(R, inst, 'stack allocation of %s' % why, tu.loc(n), nontrivial=False)
+    if not sites:
+        ctx.ok(R, 'xml::readXML call graph', 'no alloca / variable-length array in the %d functions reachable from readXML' % len(fns),
+               tu.fn_loc(start), nontrivial=False)
+
+
+def _is_charp(ct):
+    return re.match(r'^char \*(?:const)? ?&?$', ct or '') is not None
+
+
+def buffer_store_sites(tu, fns, start):
+    """Stores through pointers into the file buffer in the parse functions (every reachable function but readXML itself, which owns and
+    terminates the buffer: R-C16-3).  A pointer is a buffer pointer if it is a `char *` / `char *&` parameter, a cursor member, or a local
+    `char *` initialised / assigned from one; pointers that only ever hold memory the function allocated itself (new[], alloca, an array) are
+    R-C16-9's.  -> (function, node, verdict, text); verdict in ok | bad | undecided"""
+    out = []
+    for f in fns:
+        if f['id'] == start['id']:
+            continue
+        body = tu.body(f)
+        if body is None:
+            continue
+        buf = set()
+        for p in f.get('params', []):
+            pid = p.get('id') if isinstance(p, dict) else None
+            ct = p.get('ct') if isinstance(p, dict) else None
+            if pid and _is_charp(ct):
+                buf.add(pid)
+        fnode = tu.node(f['id']) if tu.node(f['id']) is not None else None
+        if fnode is not None:
+            for k in tu.kids(fnode):
+                if k.get('kind') == 'ParmVarDecl' and _is_charp(k.get('type', {}).get('desugaredQualType') or k.get('type', {}).get('qualType')):
+                    buf.add(k['id'])
+        locals_ = [v for v in tu.walk(body) if v.get('kind') == 'VarDecl' and _is_charp(v.get('type', {}).get('qualType'))]
+
+        def mentions_buf(e):
+            for x in tu.walk(e):
+                if x.get('kind') == 'DeclRefExpr' and x.get('referencedDecl', {}).get('id') in buf:
+                    return True
+                if x.get('kind') == 'MemberExpr' and tu.member_of_this(x) and _is_charp(x.get('type', {}).get('qualType')):
+                    return True
+            return False
+
+        def own_memory(e):
+            e = tu.strip(e, casts=True)
+            if e is None:
+                return False
+            if e.get('kind') == 'CXXNewExpr':
+                return True
+            if e.get('kind') == 'CallExpr':
+                c = tu.strip(tu.kids(e)[0]) if tu.kids(e) else None
+                nm = (c or {}).get('referencedDecl', {}).get('name', '')
+                return nm in STACK_ALLOCATORS or nm in ('malloc', 'calloc', 'realloc')
+            if e.get('kind') == 'DeclRefExpr' and '[' in e.get('type', {}).get('qualType', ''):
+                return True
+            return False
+        changed = True
+        while changed:
+            changed = False
+            for v in locals_:
+                if v['id'] in buf:
+                    continue
+                srcs = [k for k in tu.kids(v)]
+                for a in tu.walk(body):
+                    if a.get('kind') == 'BinaryOperator' and a.get('opcode') == '=' and tu.ref_decl(tu.kids(a)[0]) == v['id']:
+                        srcs.append(tu.kids(a)[1])
+                if any(not own_memory(e) and mentions_buf(e) for e in srcs):
+                    buf.add(v['id'])
+                    changed = True
+
+        names = {}
+
+        def target(lhs):
+            """(base decl id | 'this->f', text) if lhs is *p / p[k] with p a buffer pointer"""
+            lhs = tu.strip(lhs)
+            if lhs is None:
+                return None
+            base = None
+            if lhs.get('kind') == 'UnaryOperator' and lhs.get('opcode') == '*':
+                base = tu.kids(lhs)[0]
+            elif lhs.get('kind') == 'ArraySubscriptExpr':
+                base = tu.kids(lhs)[0]
+            if base is None or not mentions_buf(base):
+                return None
+            b = tu.strip(base, casts=True)
+            d = tu.ref_decl(b)
+            if d is not None:
+                names[d] = b.get('referencedDecl', {}).get('name', '?')
+            if d is None and b is not None and b.get('kind') == 'MemberExpr' and tu.member_of_this(b):
+                d = 'this->' + b.get('name', '')
+            exact = lhs.get('kind') == 'UnaryOperator' and d is not None
+            return (d if exact else None, tu.show(lhs))
+
+        def saved_from(e):
+            """if e reads a local char variable initialised with `*p` (p a buffer pointer): (that variable's decl, p)"""
+            d = tu.ref_decl(e)
+            v = tu.node(d) if d is not None else None
+            if v is None or v.get('kind') != 'VarDecl' or not tu.kids(v):
+                return None
+            t = target(tu.kids(v)[0])
+            return (v, t[0]) if t is not None and t[0] is not None else None
+
+        def modified_between(p, a, b):
+            """is pointer p assigned / stepped, or handed to a parse function by reference, between nodes a and b (source order)?"""
+            lo, hi = (tu.line(a) or (tu.line(tu.kids(a)[0]) if tu.kids(a) else 0)), tu.line(b)
+            for x in tu.walk(body):
+                if not (lo <= tu.line(x) <= hi):
+                    continue
+                if x.get('kind') in ('BinaryOperator', 'CompoundAssignOperator') and x.get('opcode', '').endswith('=') \
+                        and x.get('opcode') not in ('==', '!=', '<=', '>=') and tu.ref_decl(tu.kids(x)[0]) == p:
+                    return True
+                if x.get('kind') == 'UnaryOperator' and x.get('opcode') in ('++', '--') and tu.ref_decl(tu.kids(x)[0]) == p:
+                    return True
+                if x.get('kind') in ('CallExpr', 'CXXMemberCallExpr') and tu.callee_fn(x) is not None and tu.cfg(tu.callee_fn(x)) is not None \
+                        and tu.fn_file(tu.callee_fn(x)).startswith('rkcommon/'):
+                    return True
+            return False
+        stores = []
+        for n in tu.walk(body):
+            if n.get('kind') in ('BinaryOperator', 'CompoundAssignOperator') and n.get('opcode', '').endswith('=') \
+                    and n.get('opcode') not in ('==', '!=', '<=', '>='):
+                t = target(tu.kids(n)[0])
+                if t is not None:
+                    stores.append((n, t))
+            elif n.get('kind') == 'UnaryOperator' and n.get('opcode') in ('++', '--'):
+                t = target(tu.kids(n)[0])
+                if t is not None:
+                    stores.append((n, t))
+            elif n.get('kind') == 'CallExpr':
+                c = tu.strip(tu.kids(n)[0]) if tu.kids(n) else None
+                nm = (c or {}).get('referencedDecl', {}).get('name', '') if c else ''
+                if nm in BUF_WRITERS or nm in ('strcpy', 'strcat', 'sprintf', 'snprintf'):
+                    args = tu.kids(n)[1:]
+                    if args and mentions_buf(args[0]) and not own_memory(args[0]):
+                        out.append((f, n, 'undecided', '%s writes through `%s` into the file buffer' % (nm, tu.show(args[0]))))
+        restores = {}
+        for n, (p, txt) in stores:
+            rhs = tu.kids(n)[1] if n.get('kind') == 'BinaryOperator' and n.get('opcode') == '=' else None
+            sv = saved_from(rhs) if rhs is not None else None
+            if sv is not None:
+                restores[n['id']] = sv
+        for n, (p, txt) in stores:
+            if n['id'] in restores:
+                v, src = restores[n['id']]
+                if p is None:
+                    out.append((f, n, 'undecided', 'the saved byte `%s` is written back through `%s`' % (v.get('name'), txt)))
+                elif p != src:
+                    def nm(d):
+                        return names.get(d, d if isinstance(d, str) else '?')
+                    out.append((f, n, 'bad', 'the byte saved from `*%s` (`%s`) is written back to `%s`: wherever the two pointers differ the byte at `%s` '
+                                'stays overwritten (a NUL in the middle of the document, or none at its end) and a byte of the document at `%s` is '
+                                'replaced, so the rest of the document is parsed from a changed buffer' % (nm(src), v.get('name'), txt, nm(src), nm(p))))
+                elif modified_between(p, v, n):
+                    out.append((f, n, 'undecided', 'the saved byte `%s` is written back through `%s`, which may have moved since it was saved'
+                                % (v.get('name'), txt)))
+                else:
+                    out.append((f, n, 'ok', 'the byte saved from `%s` is written back to the same place' % txt))
+                continue
+            rhs = tu.kids(n)[1] if n.get('kind') == 'BinaryOperator' and n.get('opcode') == '=' else None
+            c = LinExpr(tu).lin(rhs) if rhs is not None else None
+            back = [m for m, sv in restores.items() if p is not None and sv[1] == p and tu.line(tu.kids(sv[0])[0]) <= tu.line(n) <= tu.line(tu.node(m))]
+            if c is not None and not c[0] and c[1] == 0 and back:
+                continue            # the temporary terminator of a save / terminate / restore triple: judged at the restore
+            out.append((f, n, 'undecided', 'store `%s` into the file buffer: the byte facts of R-C16-1 (where the terminating NUL is, which bytes are '
+                        'known not to be NUL) do not follow stores' % tu.show(n)))
+    return out
+
+
+def check_buffer_stores(ctx, tu):
+    R = 'R-C16-19'
+    ctx.describe(R, 'the parse functions do not leave the file buffer modified: a byte that is replaced temporarily (terminate in place, use, restore) '
+                    'is written back to the very place it was saved from; any other store into the buffer is not decided')
+    start, fns = _parser_fns(tu)
+    if start is None:
+        ctx.broken('%s: readXML not found' % R)
+        return
+    sites = buffer_store_sites(tu, fns, start)
+    for f, n, v, why in sites:
+        inst = '%s %s' % (f['q'].replace('rkcommon::', ''), f['fty'])
+        if v == 'bad':
+            ctx.violation(R, inst, why, tu.loc(n), key='%s|%s|%s|saved-byte-restored-elsewhere' % (R, tu.fn_file(f), f['q'].replace('rkcommon::', '')))
+        elif v == 'undecided':
+            ctx.undecided(R, inst, why, tu.loc(n))
+        else:
+            ctx.ok(R, inst, why, tu.loc(n))
+    if not sites:
+        ctx.ok(R, 'xml::readXML call graph', 'no store through a pointer into the file buffer in the %d parse functions reachable from readXML '
+               '(the buffer is written by readXML alone: fread and the terminator, R-C16-3)' % (len(fns) - 1), tu.fn_loc(start), nontrivial=False)
+
 
 def run(ctx):
     ctx.assume('the buffer handed to parseXML is NUL-terminated (established by R-C16-3 for readXML)')
@@ -4044,6 +4316,8 @@ def run(ctx):
     check_formatted_length(ctx, tu)
     check_foreign_exceptions(ctx, tu)
     check_reads_file(ctx, tu)
+    check_stack_allocation(ctx, tu)
+    check_buffer_stores(ctx, tu)
     check_positive_examples(ctx)
     from rkstatic import selftest
     selftest.run(ctx)
